@@ -50,6 +50,19 @@ type Link struct {
 	NbfMs     *int64     `json:"nbf_ms,omitempty"`    // milliseconds relative to the instant of construction (clock histories only)
 	ExpMs     *int64     `json:"exp_ms,omitempty"`
 	EncMeta   []EncKV    `json:"enc_meta,omitempty"`
+	OptPerm   int        `json:"opt_perm,omitempty"` // != 0: constructor options handed over in another order
+}
+
+func permuteOpts[T any](opts []T, seed int) {
+	if seed == 0 {
+		return
+	}
+	x := uint64(seed)*6364136223846793005 + 1442695040888963407
+	for i := len(opts) - 1; i > 0; i-- {
+		x = x*6364136223846793005 + 1442695040888963407
+		j := int((x >> 33) % uint64(i+1))
+		opts[i], opts[j] = opts[j], opts[i]
+	}
 }
 
 type Hook struct {
@@ -80,6 +93,7 @@ type Inv struct {
 	// TypedArg: one more argument "pt" whose value is a schema-typed node (bindnode over a Go struct with tuple
 	// representation) - a caller's domain type handed over as is
 	TypedArg bool `json:"typed_arg,omitempty"`
+	OptPerm  int  `json:"opt_perm,omitempty"` // != 0: constructor options handed over in another order
 }
 
 type point struct {
@@ -264,27 +278,37 @@ func BuildLinkWith(l Link, prebuilt policy.Policy) (*delegation.Token, cid.Cid, 
 	if l.Sub >= 0 {
 		opts = append(opts, delegation.WithSubject(Prin(l.Sub).DID))
 	}
+	// of several not-before / expiry settings the last one given counts; hand over only that one, so that the
+	// ORDER of the options (which is permuted below) carries no meaning
+	var nbfOpt, expOpt delegation.Option
 	if l.Nbf != nil {
-		opts = append(opts, delegation.WithNotBeforeIn(dur(*l.Nbf)))
+		nbfOpt = delegation.WithNotBeforeIn(dur(*l.Nbf))
 	}
 	if l.Exp != nil && l.ExpAbs == nil {
-		opts = append(opts, delegation.WithExpirationIn(dur(*l.Exp)))
+		expOpt = delegation.WithExpirationIn(dur(*l.Exp))
 	}
 	for _, e := range l.EncMeta {
 		opts = append(opts, delegation.WithEncryptedMetaBytes(e.K, []byte(e.Plain), EncKey(e.KeyByte)))
 	}
 	if l.NbfMs != nil {
-		opts = append(opts, delegation.WithNotBeforeIn(time.Duration(*l.NbfMs)*time.Millisecond))
+		nbfOpt = delegation.WithNotBeforeIn(time.Duration(*l.NbfMs) * time.Millisecond)
 	}
 	if l.ExpMs != nil {
-		opts = append(opts, delegation.WithExpirationIn(time.Duration(*l.ExpMs)*time.Millisecond))
+		expOpt = delegation.WithExpirationIn(time.Duration(*l.ExpMs) * time.Millisecond)
 	}
 	if l.NbfAbs != nil {
-		opts = append(opts, delegation.WithNotBefore(time.Unix(*l.NbfAbs, 0)))
+		nbfOpt = delegation.WithNotBefore(time.Unix(*l.NbfAbs, 0))
 	}
 	if l.ExpAbs != nil {
-		opts = append(opts, delegation.WithExpiration(time.Unix(*l.ExpAbs, 0)))
+		expOpt = delegation.WithExpiration(time.Unix(*l.ExpAbs, 0))
 	}
+	if nbfOpt != nil {
+		opts = append(opts, nbfOpt)
+	}
+	if expOpt != nil {
+		opts = append(opts, expOpt)
+	}
+	permuteOpts(opts, l.OptPerm)
 	tkn, err := delegation.New(Prin(l.Iss).DID, Prin(l.Aud).DID, cmd, p, opts...)
 	if err != nil {
 		return nil, cid.Undef, nil, fmt.Errorf("delegation.New: %w", err)
@@ -421,7 +445,7 @@ func BuildInvShared(iv Inv, prf []cid.Cid, reg map[string]*args.Args) (*invocati
 	if iv.Aud >= 0 {
 		opts = append(opts, invocation.WithAudience(Prin(iv.Aud).DID))
 	}
-	if iv.Exp != nil {
+	if iv.Exp != nil && iv.ExpMs == nil {
 		opts = append(opts, invocation.WithExpirationIn(dur(*iv.Exp)))
 	}
 	if iv.ExpMs != nil {
@@ -442,6 +466,7 @@ func BuildInvShared(iv Inv, prf []cid.Cid, reg map[string]*args.Args) (*invocati
 		cc := val.CidOf([]byte("cause"))
 		opts = append(opts, invocation.WithCause(&cc))
 	}
+	permuteOpts(opts, iv.OptPerm)
 	if prf == nil {
 		prf = []cid.Cid{}
 	}
